@@ -1,1 +1,1 @@
-ALL_BINS := $(B)/asan/bin/c01_array $(B)/asan/bin/c02_maps $(B)/asan/bin/c03_string $(B)/asan/bin/c04_var $(B)/asan/bin/c05_jsonenc $(B)/asan/bin/c06_jsonparse $(B)/asan/bin/c08_utf $(B)/asan/bin/c15_codecs $(B)/asan/bin/c16_streams $(B)/asan/bin/c19_date $(B)/asan/bin/c20_rot $(B)/asan/bin/c20_solve $(B)/plain/bin/c20_matrix
+ALL_BINS := $(B)/asan/bin/c01_array $(B)/asan/bin/c02_maps $(B)/asan/bin/c03_string $(B)/asan/bin/c04_var $(B)/asan/bin/c05_jsonenc $(B)/asan/bin/c06_jsonparse $(B)/asan/bin/c19_date
